@@ -145,11 +145,12 @@ fn truncate_case<const L: usize>() {
             assert!(t.len() == n, "C13: a text that fits was shortened");
         }
         let k: usize = kani::any();
-        kani::assume(k < want);
-        assert!(
-            t.as_bytes()[k] == s.as_bytes()[k],
-            "C13: truncation altered the text"
-        );
+        if k < want {
+            assert!(
+                t.as_bytes()[k] == s.as_bytes()[k],
+                "C13: truncation altered the text"
+            );
+        }
         kani::cover!(want < n && want < L);
     }
 }
@@ -207,11 +208,12 @@ pub fn c13_k_truncate_64_window() {
     );
     assert!(t.len() <= 64);
     let k: usize = kani::any();
-    kani::assume(k < want);
-    assert!(
-        t.as_bytes()[k] == bytes[k],
-        "C13: truncation altered the text"
-    );
+    if k < want {
+        assert!(
+            t.as_bytes()[k] == bytes[k],
+            "C13: truncation altered the text"
+        );
+    }
     kani::cover!(n > 64 && want == 61);
     kani::cover!(n > 64 && want == 64);
     kani::cover!(n == 64);
